@@ -26,12 +26,17 @@ LEVEL_TEXT = (
     "over the generated programs (gen_integrate_nonvec_eq, gen_integrate_vec_eq, gen_integrate_chunk_independent, "
     "gen_size_points_weights). The two refusing methods get_localgrid and moments are carried with their signatures (parameter "
     "names, annotations, every default value) and their raise: gen_moments_not_implemented, gen_moments_defaults, "
-    "gen_get_localgrid_not_implemented. Way 2: model and generated programs compared with the implementation on random "
+    "gen_get_localgrid_not_implemented. Further attributes that __init__ may store (per-grid lists of weights / points / sizes, possibly "
+    "repeated) are carried as fields of the generated record, so that gen_observations_of_current_components / gen_update_component (size, "
+    "points, weights and both integrate routes are functions of the current grid_list and num_domains only: after an entry of grid_list is "
+    "replaced every observation equals that of a grid built afresh) are statements that a snapshot taken at construction makes false; "
+    "gen_integrate_pointwise_only / gen_integrate_one_domain: with non_vectorized=True only the pointwise form of the integrand is used, for "
+    "every number of domains, and on one domain ([g] and [g], num_domains=1) the result is sum_i w_i f(x_i). Way 2: model and generated programs compared with the implementation on random "
     "configurations (structure exactly, values with tolerance)."
 )
 TECHNIQUE = "Lean 4 proof (generic list/semiring theorems; AST translation of ngrid.py with gen = model theorems) + differential correspondence + nested-sum oracle"
 GEN = ["ngrid"]
-LEAN_MODULES = ["GridVerif.Props.C18", "GridVerif.Props.C18.Gen"]
+LEAN_MODULES = ["GridVerif.Props.C18", "GridVerif.Props.C18.Gen", "GridVerif.Props.C18.CallTime"]
 THEOREMS = [
     "GridVerif.C18.mem_product",
     "GridVerif.C18.product_order",
@@ -66,6 +71,12 @@ THEOREMS = [
     "GridVerif.C18.gen_moments_not_implemented",
     "GridVerif.C18.gen_moments_defaults",
     "GridVerif.C18.gen_get_localgrid_not_implemented",
+    # round 6: the components are read at call time; the point-by-point route sees single points only (Props/C18/CallTime.lean)
+    "GridVerif.C18.gen_init_fields",
+    "GridVerif.C18.gen_observations_of_current_components",
+    "GridVerif.C18.gen_update_component",
+    "GridVerif.C18.gen_integrate_pointwise_only",
+    "GridVerif.C18.gen_integrate_one_domain",
 ]
 RULE = (
     "correspondence: random MultiDomainGrid configurations (1-4 domains; list mode, repeated-grid mode, and the same grid object "
